@@ -226,7 +226,7 @@ class StateRecorder:
             if subset is None:
                 self.emit("RevertFull", st, "no_fork" if outcome == "input_error" else outcome, exact=exact)
             else:
-                self.emit("RevertPartial", st, outcome, exact=exact, n_reverted=int(subset.to(torch.bool).sum()),
+                self.emit("RevertPartial", st, "no_fork" if outcome == "input_error" else outcome, exact=exact, n_reverted=int(subset.to(torch.bool).sum()),
                           n_rows=int(subset.numel()))
 
         def h_clone(st, a, kw, outcome, result):
